@@ -12,7 +12,12 @@ Stages
           run to the end); the resulting executions (with the projections of the surviving files inside
           the crash events) are again validated by TLC, which evaluates SimIO's properties along them,
           and the final results are compared with the uninterrupted run.
-  thorough: additionally every system call of the uninterrupted run is a crash point (HDF5: every pwrite).
+  SIGINT  the graceful abort (handle_abort_signal / save_at_checkpoint) is exercised by injecting SIGINT at recorded
+          system calls: the run has to continue to the next checkpoint, save, end; then it is resumed.
+  thorough: all workloads (DMRG two-site / single-site / with mixer, TEBD, TDVP two-site / single-site, ExpMPO, with
+          and without truncation, pickle and HDF5); additionally every system call of the uninterrupted run is a
+          crash point (HDF5: every 3rd / 5th call).
+  C18_FIXED=replace,acc,stats selects the spec constants of the proposed repairs (to validate a patched tree).
 """
 import concurrent.futures as cf
 import json
@@ -282,7 +287,7 @@ class C18:
     def check_action_coverage(self):
         never = [a for a, (d, t) in self.ctx.coverage_actions.items() if a.startswith('Do') and t == 0]
         self.notes['actions_never_taken'] = never
-        if never and not FIXED and not self.ctx.only:
+        if never and not FIXED and not self.ctx.only and not self.ctx.replay_file:
             raise core.MachineryError('SimIO actions never taken in MC (vacuity): %s' % never)
 
     # ---- reference executions --------------------------------------------------------------------
